@@ -325,7 +325,9 @@ def _three_pop_admixture_intermediates(phi_3D, f1,f2, xx,yy,zz,ww):
     """
     # For each point x,y,z in phi, this is the corresponding frequency w that
     # SNPs with frequency x,y,z in populations 1,2,3 would map to.
-    if f1 + f2 > 1:
+    # (The callers form one of these proportions as 1 minus the others, so
+    # allow for floating-point round-off in the sum.)
+    if f1 + f2 > 1 + 1e-12:
         raise ValueError('Admixture proportions (f1=%f, f2 = %f) are '
                          'non-sensible.' % (f1, f2))
     ad_w = f1*xx[:,nuax,nuax] + f2*yy[nuax,:,nuax] + (1-f1-f2)*zz[nuax,nuax,:]
@@ -343,7 +345,8 @@ def _four_pop_admixture_intermediates(phi_4D, f1,f2,f3, xx,yy,zz,aa,bb):
     """
     # For each point x,y,z,a in phi, this is the corresponding frequency b that
     # SNPs with frequency x,y,z,a in populations 1,2,3,4 would map to.
-    if f1 + f2 + f3> 1:
+    # (Allow for round-off, as above.)
+    if f1 + f2 + f3 > 1 + 1e-12:
         raise ValueError('Admixture proportions (f1=%f, f2 = %f, f3=%f) are '
                          'non-sensible.' % (f1, f2, f3))
     ad_w = f1*xx[:,nuax,nuax,nuax] + f2*yy[nuax,:,nuax,nuax] + f3*zz[nuax,nuax,:,nuax]\
@@ -362,7 +365,8 @@ def _five_pop_admixture_intermediates(phi_5D, f1,f2,f3,f4, xx,yy,zz,aa,bb,cc):
     """
     # For each point x,y,z,a,b in phi, this is the corresponding frequency c that
     # SNPs with frequency x,y,z,a,b in populations 1,2,3,4,5 would map to.
-    if f1 + f2 + f3 + f4 > 1:
+    # (Allow for round-off, as above.)
+    if f1 + f2 + f3 + f4 > 1 + 1e-12:
         raise ValueError('Admixture proportions (f1=%f, f2 = %f, f3=%f, f4=%f) are '
                          'non-sensible.' % (f1, f2, f3,  f4))
     ad_w = f1*xx[:,nuax,nuax,nuax,nuax] + f2*yy[nuax,:,nuax,nuax,nuax] + f3*zz[nuax,nuax,:,nuax,nuax]\
